@@ -149,6 +149,20 @@ pub struct QFields {
     pub mnum: Field,
     /// the body text once more, indexed with term frequencies but without field norms
     pub bnf: Field,
+    /// JSON fast field {"v": json_v(uid, doc)}: non-negative integers, many of them above 2^53 and closer to each other
+    /// than the f64 spacing, some above i64::MAX (the column type then differs from segment to segment: i64 / u64)
+    pub attrs: Field,
+}
+
+/// the value of `attrs.v`: blocks of 16 consecutive uids share a magnitude class, the offset comes from `num`
+pub fn json_v(uid: u64, d: &QDoc) -> u64 {
+    let k = d.num.map(|n| (n as u64) % 5).unwrap_or(3);
+    match (uid / 16) % 4 {
+        0 => (1u64 << 60) + k,
+        1 => (1u64 << 63) + (1u64 << 60) + k,
+        2 => (uid % 7) * 3 + k,
+        _ => (1u64 << 60) + 2 + k,
+    }
 }
 pub fn q_schema() -> (Schema, QFields) {
     let mut sb = Schema::builder();
@@ -166,7 +180,8 @@ pub fn q_schema() -> (Schema, QFields) {
         "bnf",
         TextOptions::default().set_indexing_options(TextFieldIndexing::default().set_tokenizer("default").set_fieldnorms(false).set_index_option(IndexRecordOption::WithFreqs)),
     );
-    (sb.build(), QFields { uid, body, tag, num, inum, fnum, date, ip, s, mnum, bnf })
+    let attrs = sb.add_json_field("attrs", JsonObjectOptions::default().set_fast(None));
+    (sb.build(), QFields { uid, body, tag, num, inum, fnum, date, ip, s, mnum, bnf, attrs })
 }
 
 /// The materialised corpus: model documents (with uid) and liveness.
@@ -220,6 +235,7 @@ pub fn to_doc(uid: u64, d: &QDoc, f: &QFields) -> TantivyDocument {
     if let Some(n) = d.s {
         t.add_text(f.s, s_val(n));
     }
+    t.add_object(f.attrs, std::iter::once(("v".to_string(), OwnedValue::U64(json_v(uid, d)))).collect());
     t
 }
 
